@@ -324,7 +324,7 @@ impl Check for C11Check {
     }
     fn phases(&self, tier: Tier) -> Vec<Phase> {
         let n = small_pool().len() as u64;
-        vec![Phase::exhaustive("pool-pairs", n * n).with_chunk(64), Phase::random("random-trees", tier.pick(40_000, 1_000_000), 120).with_min_tape(24).with_chunk(512)]
+        vec![Phase::exhaustive("pool-pairs", n * n).with_chunk(64), Phase::random("random-trees", tier.pick(200_000, 2_000_000), 120).with_min_tape(24).with_chunk(512)]
     }
     fn run(&self, _tier: Tier, phase: usize, input: &Input, ctx: &mut CaseCtx) {
         match (phase, input) {
